@@ -19,6 +19,13 @@ LIKE-pattern decoder; models of how qmark / numeric / named / format / pyformat 
  names   adversarial _table_ / column= / table= names: CREATE script and INSERT / UPDATE / SELECT / DELETE statements keep the
          token structure they have with harmless names, every quoted identifier decodes to the declared name, placeholders
          stay aligned; on SQLite the rows round-trip (raw read-back with this check's own quoting).
+ histories several statements of one shape on one fresh Database, so that Pony's statement caches are hit: db.insert(table,
+         **kwargs) (optionally returning=), entity creation, obj.set(**kwargs) / assignments after reading some attributes,
+         Entity.get / exists(**kwargs), delete -- the same column sets again and again with the keyword arguments written in
+         varying orders.  Oracle: a reference model in plain dicts; on SQLite both tables are read back through the raw
+         connection after every operation and lookups are compared with the model; on every dialect the INSERT / UPDATE /
+         DELETE / SELECT of each operation is split into (column, operand) pairs by the dialect lexer + driver model and every
+         operand must denote the value supplied for that very column.
 """
 from vlib import c06_lib as C
 from vlib import c06_lex as L
@@ -30,6 +37,9 @@ RULE = ('random (hypothesis). A case is (a) one value x dialect Value class x pa
         'strings with % and quotes, optionally adversarial identifiers) x dialect builder, judged under all five styles, (c) one '
         'query (0-2 echoed constants, 1-4 atoms ==, !=, in, in/not in/startswith/endswith on strings, % on ints; operands '
         'constant or parameter, parameters may repeat) x dialect, plus 1-4 stored rows on SQLite built around the operands, '
+        '(e) one history of 2-9 operations (db.insert / entity create / set / get / exists / delete with 1-4 keyword arguments in a '
+        'drawn order, a column set is reused with probability 0.7) x dialect on a fresh Database, non-trivial when one column set '
+        'occurs in two keyword orders for one kind of operation or a value is special; '
         '(d) one set of 9-10 identifiers (two tables, link table, five columns, optional schema) x dialect with a fixed script (CREATE, check_tables, INSERT incl. RETURNING, UPDATE, SELECT, DELETE). One evaluation = one case on one dialect. '
         'Non-trivial = the case contains a character that is special in some literal / LIKE / identifier / placeholder syntax '
         '(quotes, backslash, %, _, !, control or non-ASCII characters, negative or exponent numbers, sub-second / negative / '
@@ -45,7 +55,8 @@ ASSUMPTIONS = ['the lexical rules transcribed in vlib/c06_lex.py (SQLite lang_ex
                'Python ==, in, str.startswith / endswith and % on non-negative ints are the reference for the live part']
 SHARDS = {'quick': 4, 'thorough': 16}
 MIN_EVALS = {'quick': 20000, 'thorough': 300000}
-CLASS_FLOORS = {'nontrivial': 0.3, 'kind:query': 0.02, 'kind:ast': 0.01, 'kind:names': 0.005}
+CLASS_FLOORS = {'nontrivial': 0.3, 'kind:query': 0.02, 'kind:ast': 0.01, 'kind:names': 0.005, 'kind:history': 0.01,
+                'hist:same-columns-other-order': 0.004}
 
 MANIFEST = {
     'text': 'Generated values (strings with quotes, backslashes, %, _, !, control and non-ASCII characters; ints, floats, '
@@ -53,7 +64,10 @@ MANIFEST = {
             "every dialect's Value class / SQLBuilder / provider under all five DB-API parameter styles; small lexers written from "
             'the SQLite, PostgreSQL, MySQL and Oracle manuals decode what would reach the server (after modelling the driver\'s '
             'own %-formatting) and require the original value at the original position and an unchanged statement structure; on '
-            'SQLite the same queries and names are executed and compared with Python.',
+            'SQLite the same queries and names are executed and compared with Python. Histories of db.insert / create / set / get / '
+            'exists / delete calls that reuse one column set with the keyword arguments in varying orders check that cached '
+            'statements still bind every value to its own column (reference model + raw read-back on SQLite, column/operand '
+            'pairs of each statement on every dialect).',
     'note': 'PostgreSQL / MySQL / Oracle are judged as text against transcribed lexical rules (no server or driver in the '
             'sandbox); server-side type coercion, collations and charset conversion are not modelled; Oracle interval literals '
             'are skipped. Sampled, cannot establish the unbounded claim.',
